@@ -238,6 +238,14 @@ func main() {
 							}
 						}
 					case *ast.AssignStmt:
+						// lhs = call(..) -> { zzV := call(..); lhs = zzV }
+						if x.Tok == token.ASSIGN && len(x.Lhs) == 1 && len(x.Rhs) == 1 {
+							if _, isCall := x.Rhs[0].(*ast.CallExpr); isCall && !hasCall(x.Lhs[0]) {
+								if id, isID := x.Lhs[0].(*ast.Ident); !isID || id.Name != "_" {
+									emit("assign-temp", x.Pos(), x.End(), "{ zzV := "+text(x.Rhs[0])+"; "+text(x.Lhs[0])+" = zzV }")
+								}
+							}
+						}
 						// x := v -> var x = v
 						if x.Tok == token.DEFINE && len(x.Lhs) == 1 && len(x.Rhs) == 1 {
 							if id, ok := x.Lhs[0].(*ast.Ident); ok && id.Name != "_" && declOK[x] {
